@@ -805,6 +805,17 @@ class Model(Object):
                     context(partial(setattr, reaction, "_model", self))
                     context(partial(self.reactions.add, reaction))
 
+                # Take the variables out of the objective before they disappear.
+                # Otherwise the solver interface can keep a stale reference to
+                # them in its cached objective expression, and the next objective
+                # change (or its undo) silently brings the removed variables back.
+                in_objective = self.solver.objective.get_linear_coefficients(
+                    [forward, reverse]
+                )
+                if any(coef != 0 for coef in in_objective.values()):
+                    self.solver.objective.set_linear_coefficients(
+                        {forward: 0, reverse: 0}
+                    )
                 self.remove_cons_vars([forward, reverse])
                 self.reactions.remove(reaction)
                 reaction._model = None
